@@ -207,7 +207,7 @@ def check_env_twice(cfg: Dict, inv: List[str], resets: int = 1) -> Tuple[List[di
 
 
 def check_variants(cfg: Dict, inv: List[str], rng: Rng, digest_steps: int, n_variants: int = 3,
-                   formats: Optional[List[str]] = None) -> List[dict]:
+                   formats: Optional[List[str]] = None, digest_variants: int = 2) -> List[dict]:
     """Permuted / reversed / re-serialised copies, and the formatting-only re-writings named in `formats` (anchors and aliases,
     merge keys, comments, quoted integers), must build the same inventory and (digest_steps > 0) behave identically."""
     fails = []
@@ -233,7 +233,7 @@ def check_variants(cfg: Dict, inv: List[str], rng: Rng, digest_steps: int, n_var
     if digest_steps > 0:
         try:
             d0 = R.trajectory_digest(cfg, 7, digest_steps)
-            for name, v in variants[:2]:
+            for name, v in variants[:digest_variants]:
                 d1 = R.trajectory_digest(v, 7, digest_steps)
                 if d1 != d0:
                     fails.append({"kind": "key-order-changes-behaviour", "variant": name, "digest": [d0, d1]})
@@ -586,7 +586,7 @@ def run(ctx: Ctx):
     for k in range(n_gen):
         fam = G.FAMILIES[k % 3]
         cfg = G.gen_scenario(rng, size=1 + (k // 3) % 3, family=fam, shadowing=(k % 4 == 3), node_sets=False)
-        steps = ctx.scale(10, 20) if k % ctx.scale(7, 5) == 0 else 0
+        steps = ctx.scale(8, 20) if k % ctx.scale(6, 5) == 0 else 0
         if k % 3 != 2:   # two of three carry the round-4 sections (defaults, wireless router + airspace, node set, documented ACL keys)
             cfg = G.enrich(cfg, rng, stepped=bool(steps))
         cases.append((f"gen:{k}:{fam}", cfg, steps))
@@ -698,13 +698,13 @@ def run(ctx: Ctx):
             fmts = None
             if kind in ("gen", "matrix") and name not in raw_corpus:
                 fmts = FORMATS if ctx.thorough else [FORMATS[idx % 4], FORMATS[(idx + 1) % 4]]
-            vf = check_variants(cfg, inv, ctx.rng.fork(name), steps, nv, fmts)
+            vf = check_variants(cfg, inv, ctx.rng.fork(name), steps, nv, fmts, digest_variants=ctx.scale(1, 2))
             ctx.cov["evaluations"] += nv + len(fmts or [])
             ctx.count("variants-checked", nv)
             for fm in fmts or []:
                 ctx.count("format-variant:" + fm)
             if steps:
-                ctx.count("digest-compared", 2)
+                ctx.count("digest-compared", ctx.scale(1, 2))
             fails += vf
             if kind in ("gen", "matrix") and env_budget > 0 and any(a.get("type") == "proxy-agent" for a in cfg.get("agents", [])) \
                     and (idx % 3 == 0 or ctx.thorough):
